@@ -425,9 +425,9 @@ theorem per_peer_goroutines_fact :
 open Gen.C16Facts in
 /-- where the reactor stores a bit array taken from a message, and whether a validation of that array precedes the store -/
 theorem peer_bitarray_stores_fact :
-    peerBitArrayStores = [("ApplyCommitStepMessage", "ps.PRS.ProposalBlockParts = msg.BlockParts", false),
-                          ("ApplyProposalPOLMessage", "ps.PRS.ProposalPOL = msg.ProposalPOL", false),
-                          ("ApplyVoteSetBitsMessage", "otherVotes.Or(msg.Votes)", false)] := by decide
+    peerBitArrayStores = [("ApplyCommitStepMessage", "ps.PRS.ProposalBlockParts = msg.BlockParts", true),
+                          ("ApplyProposalPOLMessage", "ps.PRS.ProposalPOL = msg.ProposalPOL", true),
+                          ("ApplyVoteSetBitsMessage", "otherVotes.Or(msg.Votes)", true)] := by decide
 
 /-! ## Non-vacuity -/
 example : (⟨4, [15#64]⟩ : BA).WF := by decide
